@@ -117,7 +117,9 @@ PROPS = {
                       "interval, anchors moved by d, every point moved by exactly d for exact intervals, (r+d)-d == r); pairs of recurrences "
                       "differing in exactly one component / respelled / rebuilt are judged for ==, != , hash and identical iteration; "
                       "parse(str(r)) must equal r with the same points.",
-        "drivers": ["c14"], "mc": [], "expect_ops": ["Shift", "RecEq", "RecText"],
+        "drivers": ["c14"],
+        "mc": [{"module": "MC_C12.tla", "cfg": "MC_C14.cfg"}, {"module": "MC_C12.tla", "cfg": "MC_C14_exact4.cfg"},
+               {"module": "MC_C12.tla", "cfg": "MC_C14_twin1.cfg", "expect_violation": True}], "expect_ops": ["Shift", "RecEq", "RecText"],
         "rule": "one case = one shift, one pair, or one text round trip; all non-trivial (single-point recurrences of every notation included)",
         "assumptions": TRUST,
     },
